@@ -13,6 +13,7 @@
 #include <cstdio>
 #include <cstdlib>
 #include <ctime>
+#include <unistd.h>
 
 namespace verif{
 
@@ -54,7 +55,8 @@ inline int engine_main(int argc,char** argv,Engine& eng){
     Counters ctr; std::string text;
     int repeat=atoi(arg_of(argc,argv,"--repeat","1").c_str());
     Outcome out;
-    for(int r=0;r<repeat;r++) out=eng.execute(plan,verbose,ctr,&text);
+    // watchdog: a run that does not finish is killed by SIGALRM and reported by the driver as a hang
+    for(int r=0;r<repeat;r++){ alarm(90); out=eng.execute(plan,verbose,ctr,&text); alarm(0); }
     if(verbose) fputs(text.c_str(),stdout);
     if(out.ok) printf("E %s ok\n",hex64(out.event_hash).c_str());
     else{
@@ -84,7 +86,9 @@ inline int engine_main(int argc,char** argv,Engine& eng){
       if(deadline>0 && (runs&63)==0 && difftime(time(NULL),t0)>deadline) break;
       Json plan=eng.generate(seed,i,prop,tier);
       if(careful){ printf("B %llu\n",(unsigned long long)i); fflush(stdout); }
+      alarm(45);
       Outcome out=eng.execute(plan,false,ctr,NULL);
+      alarm(0);
       if(hashes) printf("H %llu %s\n",(unsigned long long)i,hex64(out.event_hash).c_str());
       runs++; evals+=out.evals; steps+=out.sim_steps; simtime+=out.sim_time; last=i+1;
       if(out.nontrivial){ nontrivial++; shapes.insert(out.shape); }
